@@ -7,9 +7,12 @@ package dnssec
 // orderings / polluted mixtures of generated zones' genuine NSEC chains.
 
 import (
+	"encoding/json"
 	"fmt"
 	"math/rand"
 	"os"
+	"path/filepath"
+	"sort"
 	"strings"
 	"testing"
 
@@ -205,36 +208,12 @@ func TestVerifC02Nsec(t *testing.T) {
 				a = vC02Child(l, b[1:])
 			}
 		}
-		sa, sb := vC02Pres(a), vC02Pres(b)
-		cmp := dnsname.CanonicalCompare(sa, sb)
-		if cmp < 0 {
-			cmp = -1
-		} else if cmp > 0 {
-			cmp = 1
-		}
-		shared := dnsname.CompareSuffix(sa, sb)
-		inzone := dnsutil.NameInZone(dns.CanonicalName(sa), dns.CanonicalName(sb))
-		fail := ""
-		if want := vC02Cmp(a, b); want != cmp {
-			fail = fmt.Sprintf("CanonicalCompare(%q,%q)=%d, RFC 4034 order says %d", sa, sb, cmp, want)
-		} else if rev := dnsname.CanonicalCompare(sb, sa); (rev < 0) != (cmp > 0) || (rev > 0) != (cmp < 0) {
-			fail = fmt.Sprintf("CanonicalCompare not antisymmetric on %q,%q", sa, sb)
-		} else if want := vC02Shared(a, b); want != shared {
-			fail = fmt.Sprintf("CompareSuffix(%q,%q)=%d, want %d", sa, sb, shared, want)
-		} else if want := vC02Sub(a, b); want != inzone {
-			fail = fmt.Sprintf("NameInZone(%q,%q)=%v, want %v", sa, sb, inzone, want)
-		}
-		tr.emit(map[string]any{
-			"k":          "cmp",
-			"coq":        fmt.Sprintf("(CaseCmp %s %s %d %d %v)%%N", vC02Coq(a), vC02Coq(b), cmp+1, shared, inzone),
-			"go_fail":    fail,
-			"nontrivial": cmp != 0 || len(a) > 0,
-			"desc":       fmt.Sprintf("a=%q b=%q cmp=%d shared=%d inzone=%v", sa, sb, cmp, shared, inzone),
-		})
+		vC02CmpCase(tr, a, b, "cmp")
 	}
 
 	// ---- NSEC verifiers
 	vC02Witnesses(tr, g)
+	vC02NsecCorpus(t, tr, g)
 	if os.Getenv("VERIF_TIER") == "thorough" {
 		vC02Exhaustive(tr, g)
 	}
@@ -254,6 +233,37 @@ func TestVerifC02Nsec(t *testing.T) {
 	}
 }
 
+
+// vC02CmpCase: the three name primitives on one pair of names, judged by the independent RFC 4034 order
+func vC02CmpCase(tr *vC02Trace, a, b vC02Name, kind string) {
+	sa, sb := vC02Pres(a), vC02Pres(b)
+	cmp := dnsname.CanonicalCompare(sa, sb)
+	if cmp < 0 {
+		cmp = -1
+	} else if cmp > 0 {
+		cmp = 1
+	}
+	shared := dnsname.CompareSuffix(sa, sb)
+	inzone := dnsutil.NameInZone(dns.CanonicalName(sa), dns.CanonicalName(sb))
+	fail := ""
+	if want := vC02Cmp(a, b); want != cmp {
+		fail = fmt.Sprintf("CanonicalCompare(%q,%q)=%d, RFC 4034 order says %d", sa, sb, cmp, want)
+	} else if rev := dnsname.CanonicalCompare(sb, sa); (rev < 0) != (cmp > 0) || (rev > 0) != (cmp < 0) {
+		fail = fmt.Sprintf("CanonicalCompare not antisymmetric on %q,%q", sa, sb)
+	} else if want := vC02Shared(a, b); want != shared {
+		fail = fmt.Sprintf("CompareSuffix(%q,%q)=%d, want %d", sa, sb, shared, want)
+	} else if want := vC02Sub(a, b); want != inzone {
+		fail = fmt.Sprintf("NameInZone(%q,%q)=%v, want %v", sa, sb, inzone, want)
+	}
+	tr.emit(map[string]any{
+		"k":          kind,
+		"coq":        fmt.Sprintf("(CaseCmp %s %s %d %d %v)%%N", vC02Coq(a), vC02Coq(b), cmp+1, shared, inzone),
+		"go_fail":    fail,
+		"nontrivial": cmp != 0 || len(a) > 0,
+		"desc":       fmt.Sprintf("a=%q b=%q cmp=%d shared=%d inzone=%v", sa, sb, cmp, shared, inzone),
+	})
+}
+
 type vC02FixedProbe struct {
 	q     vC02Name
 	qtype uint16
@@ -269,6 +279,95 @@ var (
 	vC02Swept     int
 	vC02SweptFail int
 )
+
+
+// corpus/C02/nsec-*.json: fixed regression inputs (minimal forms of what seeded changes were caught on),
+// replayed first on every run.  kind "cmp": pairs of names for the name primitives; kind "zone": a zone,
+// the positions of the chain records handed over, extra records of other zones (note "child": a child
+// zone's record replayed into the answer), and the questions.
+type vC02CorpusRec struct {
+	Owner [][]int `json:"owner"`
+	Next  [][]int `json:"next"`
+	Types []uint16 `json:"types"`
+	Note  string  `json:"note"`
+}
+type vC02CorpusFile struct {
+	Kind  string `json:"kind"`
+	Pairs []struct {
+		A [][]int `json:"a"`
+		B [][]int `json:"b"`
+	} `json:"pairs"`
+	Apex  [][]int `json:"apex"`
+	Nodes []struct {
+		Name  [][]int  `json:"name"`
+		Types []uint16 `json:"types"`
+	} `json:"nodes"`
+	Subset []int           `json:"subset"`
+	Extra  []vC02CorpusRec `json:"extra"`
+	Probes []struct {
+		Q     [][]int `json:"q"`
+		Qtype uint16  `json:"qtype"`
+	} `json:"probes"`
+}
+
+func vC02CorpusName(ls [][]int) vC02Name {
+	n := make(vC02Name, len(ls))
+	for i, l := range ls {
+		n[i] = make([]byte, len(l))
+		for j, b := range l {
+			n[i][j] = byte(b)
+		}
+	}
+	return n
+}
+
+var vC02Extra []vC02Rec
+
+func vC02NsecCorpus(t *testing.T, tr *vC02Trace, g *vC02Gen) {
+	dir := os.Getenv("VERIF_CORPUS")
+	if dir == "" {
+		return
+	}
+	files, _ := filepath.Glob(filepath.Join(dir, "nsec-*.json"))
+	sort.Strings(files)
+	for _, f := range files {
+		b, err := os.ReadFile(f)
+		if err != nil {
+			t.Fatalf("corpus %s: %v", f, err)
+		}
+		var cf vC02CorpusFile
+		if err := json.Unmarshal(b, &cf); err != nil {
+			t.Fatalf("corpus %s: %v", f, err)
+		}
+		switch cf.Kind {
+		case "cmp":
+			for _, p := range cf.Pairs {
+				vC02CmpCase(tr, vC02CorpusName(p.A), vC02CorpusName(p.B), "cmp-corpus")
+				vC02CmpCase(tr, vC02CorpusName(p.B), vC02CorpusName(p.A), "cmp-corpus")
+			}
+		case "zone":
+			var nodes []vC02Node
+			for _, nd := range cf.Nodes {
+				nodes = append(nodes, vC02Node{vC02CorpusName(nd.Name), nd.Types})
+			}
+			z := vC02MkZone(vC02CorpusName(cf.Apex), nodes...)
+			var probes []vC02FixedProbe
+			for _, p := range cf.Probes {
+				probes = append(probes, vC02FixedProbe{vC02CorpusName(p.Q), p.Qtype})
+			}
+			vC02Extra = nil
+			for _, e := range cf.Extra {
+				vC02Extra = append(vC02Extra, vC02Rec{owner: vC02CorpusName(e.Owner), next: vC02CorpusName(e.Next), types: e.Types, class: 1, note: e.Note})
+			}
+			vC02Subset, vC02SubsetSet, vC02KindTag = append([]int(nil), cf.Subset...), true, "corpus"
+			g.newPool(true)
+			vC02NsecCase(tr, g, z, probes)
+			vC02SubsetSet, vC02Extra = false, nil
+		default:
+			t.Fatalf("corpus %s: unknown kind %q", f, cf.Kind)
+		}
+	}
+}
 
 func vC02N(labels ...string) vC02Name {
 	var n vC02Name
@@ -342,13 +441,14 @@ func vC02NsecCase(tr *vC02Trace, g *vC02Gen, z *vC02Zone, fixed []vC02FixedProbe
 			for _, i := range vC02Subset {
 				recs = append(recs, chain[i])
 			}
+			recs = append(recs, vC02Extra...)
 		}
 	}
 	// pollution
 	var child *vC02Zone
 	polluted := ""
-	if fixed == nil && r.Intn(100) < 35 {
-		switch r.Intn(11) {
+	if fixed == nil && r.Intn(100) < 40 {
+		switch r.Intn(13) {
 		case 0: // records of a sibling zone
 			if len(z.apex) > 0 {
 				sib := append([]byte(nil), z.apex[0]...)
@@ -361,7 +461,7 @@ func vC02NsecCase(tr *vC02Trace, g *vC02Gen, z *vC02Zone, fixed []vC02FixedProbe
 				}
 				polluted = "sibling"
 			}
-		case 1, 2, 8, 9, 10: // records of a child zone below one of the delegations (any of them)
+		case 1, 2, 8, 9, 10, 11, 12: // records of a child zone below one of the delegations (any of them)
 			var cuts []vC02Node
 			for _, nd := range z.nodes {
 				if vC02Has(nd.types, dns.TypeNS) && !vC02Has(nd.types, dns.TypeSOA) {
@@ -515,8 +615,30 @@ func vC02NsecCase(tr *vC02Trace, g *vC02Gen, z *vC02Zone, fixed []vC02FixedProbe
 	// records of another zone mixed in: what they must not touch are the zone's own names — ask about
 	// three more of its owners
 	ownProbes := 0
+	var reach []vC02Name
 	if polluted == "child" || polluted == "sibling" {
+		// names of the zone (owners first) outside the foreign zone's subtree that sort after the last /
+		// before the first foreign record supplied: where an over-reaching interval would land
+		var lo, hi vC02Name
+		for _, rc := range recs {
+			if rc.note == "child" || rc.note == "sibling" {
+				if lo == nil || vC02Cmp(rc.owner, lo) < 0 {
+					lo = rc.owner
+				}
+				if hi == nil || vC02Cmp(rc.owner, hi) > 0 {
+					hi = rc.owner
+				}
+			}
+		}
+		for _, nd := range z.nodes {
+			if hi != nil && (child == nil || !vC02Sub(nd.name, child.apex)) && (vC02Cmp(nd.name, hi) > 0 || vC02Cmp(nd.name, lo) < 0) {
+				reach = append(reach, nd.name)
+			}
+		}
 		ownProbes = 3
+		if len(reach) > 3 {
+			ownProbes = 5
+		}
 		nprobes += ownProbes
 	}
 	if fixed != nil {
@@ -531,6 +653,9 @@ func vC02NsecCase(tr *vC02Trace, g *vC02Gen, z *vC02Zone, fixed []vC02FixedProbe
 			p.q = cands[r.Intn(len(cands))]
 			if i < ownProbes {
 				p.q = z.nodes[r.Intn(len(z.nodes))].name
+				if len(reach) > 0 && r.Intn(4) > 0 {
+					p.q = reach[r.Intn(len(reach))]
+				}
 			} else if len(recs) > 0 && r.Intn(5) == 0 { // interval end points of the records actually supplied
 				rc := recs[r.Intn(len(recs))]
 				if r.Intn(2) == 0 {
